@@ -36,6 +36,12 @@ def sim_cases(EoN, rng, name, n, stats):
         gc = R.gen_graph(rng, nmax=9, nmin=2, directed=directed, ewl=rng.choice([None, 'tw']) if 'fast' in name or 'Gillespie_S' in name else None,
                          nwl=None, zero_w=False)
         G = gc.G
+        if i % 4 == 3 and not name.startswith('simple') and 'discrete' not in name:
+            # self-loops are legal networkx input (configuration_model produces them) and the simulators have code for them
+            for u in rng.sample(gc.order, min(2, len(gc.order))):
+                G.add_edge(u, u)
+                if gc.ewl: G.adj[u][u][gc.ewl] = 1.0
+            stats['selfloop_cases'] = stats.get('selfloop_cases', 0) + 1
         sel = rng.sample(gc.order, rng.randint(1, min(2, len(gc.order))))
         tmin = rng.choice([0, 1.5, -2])
         seed = rng.randrange(10 ** 6); pyrandom.seed(seed); np.random.seed(seed)
